@@ -88,7 +88,7 @@ def evidence_C08(agg, tier):
 
 
 def plan_C20(tier):
-    n = scale(tier, 2400, 400000)
+    n = scale(tier, 2000, 400000)
     return {
         "backends": ["c", "py"],
         "subs": [
@@ -189,7 +189,7 @@ SPECS = {
     "C20": {"machine": "c20", "level": "exploration", "plan": plan_C20, "evidence": evidence_C20, "post": post_C20,
             "assumptions": [
                 "code outside yarl's .py files (stdlib, idna, multidict, propcache, functools.lru_cache C wrapper, the compiled quoter) executes as one atomic step, which is what the GIL guarantees for the C parts",
-                "the compiled quoter never releases the GIL while its static buffer is live; the generated C is scanned for PyEval_SaveThread/Py_UNBLOCK_THREADS and the count is recorded in coverage (assumption, never a VIOLATION)",
+                "a GIL release / re-acquisition inside the compiled quoter is a scheduler pre-emption point: the staged _quoting_c is compiled with sim/gilshim.h, which routes PyEval_SaveThread/RestoreThread through the scheduler (the shipped quoter contains none; the generated C is also scanned and the count recorded)",
                 "free-threaded builds are out of scope (CPython 3.12.1 has a GIL)",
                 "schedules are sampled, not enumerated",
             ]},
